@@ -24,7 +24,8 @@ KEY = {1: "reject/bracketed-anytrait", 2: "accept/outside-documented-language", 
        10: "spelling/hash-differs", 11: "exception/not-ValueError", 12: "equality/different-patterns-compare-equal",
        13: "cache/answer-changes-between-calls", 14: "entry-points/parse-and-compile_str-disagree",
        15: "removal/registered-by-one-spelling-not-removable-by-the-other",
-       16: "hooks/handler-fires-for-other-traits-than-documented"}
+       16: "hooks/handler-fires-for-other-traits-than-documented",
+       17: "hooks/observe-raises-or-not-unlike-documented"}
 _W = re.compile(r"\w")
 
 
@@ -321,10 +322,14 @@ def expr_corpus():
 def hook_corpus():
     """End-to-end: which traits of the probe objects a text hooks (metadata values True, False, 0, "", (), None, absent)."""
     els = ["+tag", "+other", "+nothing", "*", "t_true", "t_false", "t_none", "t_absent", "[+tag,t_absent]", "[+tag,+other]",
-           "[t_zero,*]", "items"]
-    texts = list(els) + ["child"] + ["child%s%s" % (c, e) for c in ".:" for e in els if e != "[t_zero,*]"]
+           "t_zero,*", "items"]
+    texts = list(els) + ["child"] + ["child%s%s" % (c, e) for c in ".:" for e in els if e != "t_zero,*"]
     texts += ["+tag,+other", "t_true,child:+tag", "+tag,child.+tag", " + tag ", "child : + tag", "child.[+tag , t_none]",
-              "child:[t_absent,+other]", "*,child:*", "t_other,+other"]
+              "child:[t_absent,+other]", "*,child:*", "t_other,+other",
+              # further shapes decided by the model's walk (Model.hook_graph); texts that put a pattern below a trait
+              # holding a number are left out: changing that number makes the maintainer hook an int (C08's domain)
+              "child.child", "child.nope", "nope", "nope.t_true", "child.items", "child:t_true,child.t_false",
+              "[child:t_true,child.t_false]", "child.[+tag,+other,t_none]", "[child].[t_zero]", "child:[t_true,+tag],child.*"]
     return [dict(kind="hook", s=t) for t in texts]
 
 
@@ -706,7 +711,7 @@ def run(ctx):
     check_grammar(ctx)
     # embedded cases first (corpus includes the triggers of the listed findings)
     t0 = time.time()
-    cases = corpus() + derivation_cases(rnd, ctx, quick) + gen_cases(rnd, ctx, 1200 if quick else 12000)
+    cases = corpus() + derivation_cases(rnd, ctx, quick) + gen_cases(rnd, ctx, 900 if quick else 12000)
     for c in cases[:2] + cases[-2:]:
         ctx.sample(c)
     run_cases(ctx, cases, "cases", "C15.Corr.corr_codes (Model.compile_str = parse/compile_str on every text)")
